@@ -1,6 +1,8 @@
 //! C17 driver: every Pipeline vector as a concrete request through the real client stacks.
 //!
-//!   pipeline run <vectors.json> <certdir> <out.ndjson> <seed> <nspell>
+//!   pipeline run <vectors.json> <certdir> <out.ndjson> <seed> <nspell> [<shard> <nshards> [<probe.json>]]
+//!   pipeline probe <vectors.json> <certdir> <out.ndjson> <seed> <nspell>    (the probes only; writes <out>.probe.json)
+//!   pipeline one <vectors.json> <certdir> <out.ndjson> <seed> <nspell>      (no probing; used for the probes)
 //!
 //! Stacks: `client` (hyperdriver::Client from client::Builder with a custom transport), `pool`
 //! (ConnectionPoolService with a pool, inner layers as the builder stacks them), `nopool`
@@ -9,6 +11,24 @@
 //! Transports: `plain` (TlsTransport without TLS), `tls` (TLS configuration, no ALPN), `tlsalpn` (TLS
 //! configuration offering h2 + http/1.1). The peer is a real hyper server (HTTP/1 and HTTP/2) behind an
 //! optional real rustls acceptor, all over in-memory pipes.
+//!
+//! Configuration and history (C17 quantifies over "inputs, configurations"): a vector also carries classes of the
+//! pool configuration (with / without pool, idle_timeout, max_idle_per_host, continue_after_preemption), of the
+//! client builder (request timeout, redirect policy), of the transport below TLS (`net`: in memory, or the real
+//! `TcpTransport` on loopback with TcpTransportConfig classes for connect_timeout, happy_eyeballs_timeout,
+//! happy_eyeballs_concurrency, keep_alive_timeout, buffer sizes) and a history: the request is the 1st, 2nd or 3rd
+//! request of the same client to the same origin, every previous one either completed with its connection idle,
+//! still in flight (the peer's answer is held back on the wire), or completed with the connections then closed by
+//! the peer. A vector at the centre of all of these runs exactly as before (`run_vector`); every other vector runs in
+//! `run_scenario`: the same stacks built with the configuration, a relay between the transport and the peer that
+//! can hold back the peer's bytes per connection and close connections, the previous requests, then the vector's
+//! request in the caller's task inside catch_unwind. TCP vectors use a real clock (a paused clock fires every timer
+//! as soon as the runtime waits for a socket) and loopback listeners.
+//!
+//! A configuration class that blocks the executor thread (a poll that never returns) cannot be timed out from
+//! inside: the vectors that differ from the centre in exactly one configuration class are executed first, each in
+//! a child process under a wall-clock limit (`probe`); a class whose probe is stuck twice is recorded as `stuck`
+//! on the probe vector and the other vectors of that class are recorded as not executed.
 //!
 //! Every request runs on its own current-thread runtime with a paused clock, inside catch_unwind, with a
 //! global panic hook; after the request resolved the runtime is settled and torn down, so a panic in any
@@ -19,6 +39,9 @@
 #[path = "../tls_common.rs"]
 mod common;
 
+use std::future::Future;
+use std::pin::Pin;
+use std::sync::atomic::{AtomicBool, AtomicU64, Ordering};
 use std::sync::{Arc, Mutex};
 use std::time::Duration;
 
@@ -27,6 +50,7 @@ use http_body_util::BodyExt;
 use hyperdriver::client::conn::connection::HttpConnection;
 use hyperdriver::client::conn::connector::{ConnectorLayer, ConnectorService};
 use hyperdriver::client::conn::protocol::auto::HttpConnectionBuilder;
+use hyperdriver::client::conn::transport::tcp::{TcpTransport, TcpTransportConfig};
 use hyperdriver::client::conn::transport::TlsTransport;
 use hyperdriver::client::pool::Pooled;
 use hyperdriver::client::ConnectionPoolService;
@@ -34,6 +58,7 @@ use hyperdriver::service::{Http1ChecksLayer, Http2ChecksLayer, RequestExecutor, 
 use hyperdriver::Body;
 use rand::{Rng, SeedableRng};
 use serde_json::{json, Value};
+use tokio::io::{AsyncRead, AsyncReadExt, AsyncWrite, AsyncWriteExt};
 
 fn s<'a>(v: &'a Value, k: &str) -> &'a str {
     v.get(k).and_then(|x| x.as_str()).unwrap_or_else(|| panic!("vector field {k} missing in {v}"))
@@ -76,7 +101,19 @@ fn host_spellings(class: &str) -> Vec<String> {
     }
 }
 
-fn concrete(v: &Value, sp: usize, rng: &mut rand::rngs::StdRng) -> Concrete {
+/// hosts that resolve on loopback (or fail to resolve quickly, without the network) for the TCP vectors
+fn host_spellings_tcp(class: &str) -> Vec<String> {
+    match class {
+        "name" => vec!["localhost".into()],
+        "v4" => vec!["127.0.0.1".into(), "u@127.0.0.1".into()],
+        "v6" => vec!["[::1]".into()],
+        "legal" => vec!["LOCALHOST".into(), "localhost.".into(), "local_host".into()],
+        _ => vec!["a!b.test".into(), "127.1".into(), "-".into(), "[v1.x]".into(), "".into(), "a..b".into()],
+    }
+}
+
+/// `tcp_port`: Some(port of the loopback listener) for a vector over the real TCP transport
+fn concrete(v: &Value, sp: usize, rng: &mut rand::rngs::StdRng, tcp_port: Option<u16>) -> Concrete {
     let pick = |n: usize, rng: &mut rand::rngs::StdRng| if sp == 0 { 0 } else { (sp + rng.gen_range(0..n)) % n };
     let version = match s(v, "ver") {
         "0.9" => http::Version::HTTP_09,
@@ -92,11 +129,17 @@ fn concrete(v: &Value, sp: usize, rng: &mut rand::rngs::StdRng) -> Concrete {
         }
         m => m.to_string(),
     };
-    let hs = host_spellings(s(v, "host"));
+    let hs = if tcp_port.is_some() { host_spellings_tcp(s(v, "host")) } else { host_spellings(s(v, "host")) };
     let host = hs[pick(hs.len(), rng)].clone();
     let form = s(v, "uri");
     let secure = matches!(form, "https" | "wss");
-    let port = {
+    let port = if let Some(lp) = tcp_port {
+        // the listener's port (always for the first spelling), sometimes the scheme's default or none
+        let lp = format!(":{lp}");
+        let p = [lp.as_str(), lp.as_str(), lp.as_str(), "", ":0", ":"];
+        let i = pick(p.len(), rng);
+        if host.is_empty() && (p[i].is_empty() || p[i] == ":") { lp.clone() } else { p[i].to_string() }
+    } else {
         let p = [if secure { ":443" } else { ":80" }, "", ":8443", ":", ":65535", ":0"];
         let i = pick(p.len(), rng);
         // an empty host needs something after it to remain an authority
@@ -108,9 +151,10 @@ fn concrete(v: &Value, sp: usize, rng: &mut rand::rngs::StdRng) -> Concrete {
         "asterisk" => "*".to_string(),
         "authority" => {
             // authority-form: host:port (what CONNECT uses); a bare host without port is also accepted by http::Uri
-            let p = [":443", ":80", ":", "", ":8443"];
+            let lp = tcp_port.map(|p| format!(":{p}")).unwrap_or_else(|| ":443".to_string());
+            let p = [lp.as_str(), ":80", ":", "", ":8443"];
             let i = pick(p.len(), rng);
-            let port = if host.is_empty() && (p[i].is_empty() || p[i] == ":") { ":443" } else { p[i] };
+            let port = if host.is_empty() && (p[i].is_empty() || p[i] == ":") { lp.as_str() } else { p[i] };
             format!("{host}{port}")
         }
         "other" => {
@@ -217,7 +261,7 @@ where
 
 fn run_vector(certs: &Certs, scfg: &Arc<rustls::ServerConfig>, id: usize, v: &Value, spx: usize, seed: u64) -> Option<Value> {
     let mut rng = rand::rngs::StdRng::seed_from_u64(seed ^ ((id as u64) << 8) ^ (spx as u64).wrapping_mul(0x9E37_79B9));
-    let c = concrete(v, spx, &mut rng);
+    let c = concrete(v, spx, &mut rng, None);
     let req = match build_request(&c) {
         Ok(r) => r,
         Err(e) => {
@@ -348,11 +392,574 @@ fn run_vector(certs: &Certs, scfg: &Arc<rustls::ServerConfig>, id: usize, v: &Va
         "err" => "err",
         _ => "hang",
     });
+    // the fields of the configuration x history vectors, for a uniform record: one request, every connection dialled
+    // for it, first request of its client
+    obs["stuck"] = json!(false);
+    obs["dialsFinal"] = json!(conns.len());
+    obs["prev"] = json!([]);
+    obs["panicHist"] = json!(if panics.is_empty() && !caller { "" } else { "first" });
+    Some(record(id, spx, v, &c, obs))
+}
+
+// ------------------------------------------------------------------------------------------------
+// configuration x history vectors
+
+const SC_DIMS: [(&str, &str); 13] = [
+    ("net", "mem"),
+    ("pool", "on"),
+    ("idle", "default"),
+    ("maxidle", "default"),
+    ("cap", "on"),
+    ("rto", "none"),
+    ("redir", "off"),
+    ("ct", "default"),
+    ("het", "default"),
+    ("hec", "default"),
+    ("ka", "default"),
+    ("buf", "none"),
+    ("hist", "first"),
+];
+
+/// class of dimension `d` (the centre's when the vector does not carry it: vectors of the request grammar)
+fn sc<'a>(v: &'a Value, d: &str) -> &'a str {
+    match v.get(d).and_then(|x| x.as_str()) {
+        Some(x) => x,
+        None => SC_DIMS.iter().find(|(k, _)| *k == d).map(|(_, c)| *c).unwrap_or_else(|| panic!("unknown dimension {d}")),
+    }
+}
+
+fn is_centre(v: &Value) -> bool {
+    SC_DIMS.iter().all(|(d, c)| sc(v, d) == *c)
+}
+
+fn dur(class: &str, default: Duration) -> Option<Duration> {
+    match class {
+        "none" => None,
+        "zero" => Some(Duration::ZERO),
+        "tiny" => Some(Duration::from_nanos(1)),
+        "max" => Some(Duration::MAX),
+        "default" => Some(default),
+        other => panic!("duration class {other}"),
+    }
+}
+
+fn pool_config(v: &Value) -> hyperdriver::client::PoolConfig {
+    let mut c = hyperdriver::client::PoolConfig::default();
+    c.idle_timeout = dur(sc(v, "idle"), Duration::from_secs(90));
+    c.max_idle_per_host = match sc(v, "maxidle") {
+        "zero" => 0,
+        "one" => 1,
+        "max" => usize::MAX,
+        _ => 32,
+    };
+    c.continue_after_preemption = sc(v, "cap") == "on";
+    c
+}
+
+fn tcp_config(v: &Value) -> TcpTransportConfig {
+    let mut c = TcpTransportConfig::default();
+    c.connect_timeout = dur(sc(v, "ct"), Duration::from_secs(10));
+    c.happy_eyeballs_timeout = dur(sc(v, "het"), Duration::from_secs(30));
+    c.keep_alive_timeout = dur(sc(v, "ka"), Duration::from_secs(90));
+    c.happy_eyeballs_concurrency = match sc(v, "hec") {
+        "none" => None,
+        "zero" => Some(0),
+        "one" => Some(1),
+        "max" => Some(usize::MAX),
+        _ => Some(2),
+    };
+    let b = match sc(v, "buf") {
+        "zero" => Some(0),
+        "max" => Some(usize::MAX),
+        _ => None,
+    };
+    c.send_buffer_size = b;
+    c.recv_buffer_size = b;
+    c
+}
+
+type OutFut = Pin<Box<dyn Future<Output = Outcome> + Send>>;
+/// sends one request through (a clone of) the stack of the vector: every call is a request of the same client
+type Sender = Box<dyn FnMut(http::Request<Body>) -> OutFut>;
+
+fn sender_of<S, RB>(svc: S) -> Sender
+where
+    S: tower::Service<http::Request<Body>, Response = http::Response<RB>, Error = hyperdriver::client::Error> + Clone + Send + 'static,
+    S::Future: Send,
+    RB: http_body::Body + Send + 'static,
+    RB::Data: Send,
+{
+    Box::new(move |req| Box::pin(drive(svc.clone(), req)))
+}
+
+/// the five stacks over the transport expression `$t` (evaluated once per use), configured by the vector
+macro_rules! stack_sender {
+    ($stack:expr, $v:expr, $ccfg:expr, $t:expr) => {{
+        let v: &Value = $v;
+        let ccfg: &Option<rustls::ClientConfig> = $ccfg;
+        match $stack {
+            "client" => {
+                let b = hyperdriver::Client::builder().with_protocol(HttpConnectionBuilder::default()).with_transport($t);
+                let b = if sc(v, "pool") == "on" { b.with_pool(pool_config(v)) } else { b.without_pool() };
+                let b = b.with_optional_timeout(dur(sc(v, "rto"), Duration::from_secs(30)));
+                let b = if sc(v, "redir") == "on" { b.with_standard_redirect_policy() } else { b.without_redirects() };
+                let b = match ccfg {
+                    None => b.without_tls(),
+                    Some(c) => b.with_tls(c.clone()),
+                };
+                sender_of(b.build())
+            }
+            "pool" | "nopool" => {
+                let tt = match ccfg {
+                    None => TlsTransport::new($t),
+                    Some(c) => TlsTransport::new($t).with_tls(Arc::new(c.clone())),
+                };
+                let inner = tower::ServiceBuilder::new()
+                    .layer(SetHostHeaderLayer::new())
+                    .layer(Http2ChecksLayer::new())
+                    .layer(Http1ChecksLayer::new())
+                    .service(RequestExecutor::<Pooled<HttpConnection<Body>, Body>, Body>::new());
+                let svc: ConnectionPoolService<_, _, _, Body> =
+                    ConnectionPoolService::new(tt, HttpConnectionBuilder::<Body>::default(), inner, pool_config(v));
+                let svc = if $stack == "nopool" { svc.without_pool() } else { svc };
+                sender_of(svc)
+            }
+            "connector" => {
+                let tt = match ccfg {
+                    None => TlsTransport::new($t),
+                    Some(c) => TlsTransport::new($t).with_tls(Arc::new(c.clone())),
+                };
+                let inner = tower::ServiceBuilder::new()
+                    .layer(SetHostHeaderLayer::new())
+                    .layer(Http2ChecksLayer::new())
+                    .layer(Http1ChecksLayer::new())
+                    .service(RequestExecutor::<HttpConnection<Body>, Body>::new());
+                sender_of(ConnectorService::new(inner, tt, HttpConnectionBuilder::<Body>::default()))
+            }
+            _ => {
+                let tt = match ccfg {
+                    None => TlsTransport::new($t),
+                    Some(c) => TlsTransport::new($t).with_tls(Arc::new(c.clone())),
+                };
+                let svc = tower::ServiceBuilder::new()
+                    .layer(ConnectorLayer::new(tt, HttpConnectionBuilder::<Body>::default()))
+                    .service(RequestExecutor::<HttpConnection<Body>, Body>::new());
+                sender_of(svc)
+            }
+        }
+    }};
+}
+
+/// One relayed connection: the peer's bytes reach the client only while the gate is open; aborting the relay
+/// closes the connection in both directions (what a peer closing it looks like).
+struct ConnCtl {
+    gate: tokio::sync::watch::Sender<bool>,
+    relay: tokio::task::AbortHandle,
+}
+
+/// The wire between the transport and the peer.
+#[derive(Default)]
+struct NetCtl {
+    conns: Mutex<Vec<ConnCtl>>,
+    hold_new: AtomicBool,
+}
+
+impl NetCtl {
+    fn attach<A>(&self, client_side: A, peer_tx: &tokio::sync::mpsc::UnboundedSender<tokio::io::DuplexStream>)
+    where
+        A: AsyncRead + AsyncWrite + Send + Unpin + 'static,
+    {
+        let (c, d) = tokio::io::duplex(64 * 1024);
+        let _ = peer_tx.send(d);
+        let (gate, rx) = tokio::sync::watch::channel(!self.hold_new.load(Ordering::SeqCst));
+        let relay = tokio::spawn(relay(client_side, c, rx)).abort_handle();
+        self.conns.lock().unwrap().push(ConnCtl { gate, relay });
+    }
+    fn count(&self) -> usize {
+        self.conns.lock().unwrap().len()
+    }
+    fn close_gates(&self) {
+        for c in self.conns.lock().unwrap().iter() {
+            c.gate.send_replace(false);
+        }
+    }
+    fn open_gate(&self, i: usize) {
+        if let Some(c) = self.conns.lock().unwrap().get(i) {
+            c.gate.send_replace(true);
+        }
+    }
+    fn open_all(&self) {
+        self.hold_new.store(false, Ordering::SeqCst);
+        for c in self.conns.lock().unwrap().iter() {
+            c.gate.send_replace(true);
+        }
+    }
+    fn kill_all(&self) {
+        for c in self.conns.lock().unwrap().iter() {
+            c.relay.abort();
+        }
+    }
+}
+
+async fn gate_open(gate: &mut tokio::sync::watch::Receiver<bool>) -> bool {
+    loop {
+        if *gate.borrow() {
+            return true;
+        }
+        if gate.changed().await.is_err() {
+            return false;
+        }
+    }
+}
+
+async fn relay<A>(client_side: A, server_side: tokio::io::DuplexStream, mut gate: tokio::sync::watch::Receiver<bool>)
+where
+    A: AsyncRead + AsyncWrite + Send + Unpin + 'static,
+{
+    let (mut cr, mut cw) = tokio::io::split(client_side);
+    let (mut sr, mut sw) = tokio::io::split(server_side);
+    let up = async {
+        let _ = tokio::io::copy(&mut cr, &mut sw).await;
+        let _ = sw.shutdown().await;
+    };
+    let down = async {
+        let mut buf = vec![0u8; 16 * 1024];
+        loop {
+            if !gate_open(&mut gate).await {
+                break;
+            }
+            let n = match sr.read(&mut buf).await {
+                Ok(0) | Err(_) => break,
+                Ok(n) => n,
+            };
+            if !gate_open(&mut gate).await {
+                break;
+            }
+            if cw.write_all(&buf[..n]).await.is_err() || cw.flush().await.is_err() {
+                break;
+            }
+        }
+        let _ = cw.shutdown().await;
+    };
+    tokio::join!(up, down);
+}
+
+/// every task that can run has run: under the paused clock 1 ms passes only when the runtime is idle; with real
+/// sockets a few milliseconds of real time
+async fn settle(real: bool) {
+    if real {
+        for _ in 0..4 {
+            tokio::task::yield_now().await;
+        }
+        tokio::time::sleep(Duration::from_millis(1)).await;
+        for _ in 0..4 {
+            tokio::task::yield_now().await;
+        }
+    } else {
+        tokio::time::sleep(Duration::from_millis(1)).await;
+    }
+}
+
+fn outcome_json(o: Result<Result<Outcome, ()>, tokio::time::error::Elapsed>) -> Value {
+    match o {
+        Err(_) => json!({"result": "hang"}),
+        Ok(Err(())) => json!({"result": "panic"}),
+        Ok(Ok(Err((k, m)))) => json!({"result": "err", "errKind": k, "errMsg": m.chars().take(300).collect::<String>()}),
+        Ok(Ok(Ok((status, ver, n)))) => json!({"result": "resp", "status": status, "respVersion": ver, "bodyLen": n}),
+    }
+}
+
+fn hist_states(h: &str) -> Vec<&str> {
+    if h == "first" {
+        Vec::new()
+    } else {
+        h.split('-').collect()
+    }
+}
+
+fn hist_name(states: &[&str]) -> String {
+    match states.len() {
+        0 => "first".to_string(),
+        1 => format!("second-{}", states[0]),
+        _ => format!("third-{}", states.join("-")),
+    }
+}
+
+fn run_scenario(certs: &Certs, scfg: &Arc<rustls::ServerConfig>, id: usize, v: &Value, spx: usize, seed: u64) -> Option<Value> {
+    let mut rng = rand::rngs::StdRng::seed_from_u64(seed ^ ((id as u64) << 8) ^ (spx as u64).wrapping_mul(0x9E37_79B9));
+    let tcp = sc(v, "net") == "tcp";
+    let stack = s(v, "stack").to_string();
+    let transport_kind = s(v, "transport").to_string();
+    let states: Vec<String> = hist_states(sc(v, "hist")).into_iter().map(|x| x.to_string()).collect();
+    let log: PeerLog = Arc::new(Mutex::new(Vec::new()));
+    let _ = take_panics();
+    let mut rtb = tokio::runtime::Builder::new_current_thread();
+    rtb.enable_all();
+    if !tcp {
+        rtb.start_paused(true);
+    }
+    let rt = rtb.build().expect("runtime");
+    // panics seen so far, with the step during which they were raised (0-based request index, or "settle")
+    let steps: Arc<Mutex<Vec<(String, PanicRec)>>> = Arc::new(Mutex::new(Vec::new()));
+    let note = |steps: &Arc<Mutex<Vec<(String, PanicRec)>>>, step: String| {
+        for p in take_panics() {
+            steps.lock().unwrap().push((step.clone(), p));
+        }
+    };
+    let mut conc: Option<Concrete> = None;
+    let mut skipped: Option<String> = None;
+    let outcome = std::panic::catch_unwind(std::panic::AssertUnwindSafe(|| {
+        rt.block_on(async {
+            let net = Arc::new(NetCtl::default());
+            let (peer_tx, peer_rx) = tokio::sync::mpsc::unbounded_channel();
+            let peer = tokio::spawn(run_peer(peer_rx, PeerCfg { tls: Some(scfg.clone()), fault: Fault::None, app: App::Http }, log.clone()));
+            let ccfg = match transport_kind.as_str() {
+                "plain" => None,
+                "tls" => Some(certs.client_config(&[]).0),
+                _ => Some(certs.client_config(&["h2", "http/1.1"]).0),
+            };
+            let mut acceptors = Vec::new();
+            let mut port = None;
+            let mut send: Sender = if tcp {
+                // loopback listeners (IPv4, and IPv6 on the same port when available)
+                let l4 = tokio::net::TcpListener::bind("127.0.0.1:0").await.expect("bind 127.0.0.1");
+                let p = l4.local_addr().expect("local addr").port();
+                port = Some(p);
+                let mut ls = vec![l4];
+                if let Ok(l6) = tokio::net::TcpListener::bind(("::1", p)).await {
+                    ls.push(l6);
+                }
+                for l in ls {
+                    let (net, peer_tx) = (net.clone(), peer_tx.clone());
+                    acceptors.push(tokio::spawn(async move {
+                        while let Ok((io, _)) = l.accept().await {
+                            net.attach(io, &peer_tx);
+                        }
+                    }));
+                }
+                let cfg = tcp_config(v);
+                let mk = || -> TcpTransport { TcpTransport::builder().with_config(cfg.clone()).with_gai_resolver().build() };
+                stack_sender!(stack.as_str(), v, &ccfg, mk())
+            } else {
+                let (mem, mut rx) = MemTransport::new();
+                let (net2, peer_tx2) = (net.clone(), peer_tx.clone());
+                acceptors.push(tokio::spawn(async move {
+                    while let Some(io) = rx.recv().await {
+                        net2.attach(io, &peer_tx2);
+                    }
+                }));
+                stack_sender!(stack.as_str(), v, &ccfg, mem.clone())
+            };
+            drop(peer_tx);
+            let c = concrete(v, spx, &mut rng, port);
+            let req = match build_request(&c) {
+                Ok(r) => r,
+                Err(e) => {
+                    skipped = Some(format!("{e} ({} {})", c.method, c.uri.chars().take(60).collect::<String>()));
+                    conc = Some(c);
+                    return json!({"result": "skipped"});
+                }
+            };
+            // previous requests: ordinary GETs to the origin of the vector's URI (or the default origin when the
+            // URI has none), in the vector's HTTP version when the library speaks it
+            let origin = match c.uri.parse::<http::Uri>() {
+                Ok(u) if u.scheme().is_some() && u.authority().is_some() => format!("{}://{}", u.scheme_str().unwrap(), u.authority().unwrap()),
+                _ => match port {
+                    Some(p) => format!("http://127.0.0.1:{p}"),
+                    None => "http://verif.test".to_string(),
+                },
+            };
+            let pver = match c.version {
+                http::Version::HTTP_10 | http::Version::HTTP_11 | http::Version::HTTP_2 => c.version,
+                _ => http::Version::HTTP_11,
+            };
+            let bound = if tcp { Duration::from_millis(200) } else { Duration::from_secs(2) };
+            let mut pending: Vec<(usize, tokio::task::JoinHandle<Result<Outcome, ()>>)> = Vec::new();
+            let mut prev: Vec<Value> = Vec::new();
+            for (k, st) in states.iter().enumerate() {
+                let preq = http::Request::builder()
+                    .method("GET")
+                    .uri(format!("{origin}/prev-{k}"))
+                    .version(pver)
+                    .body(Body::empty())
+                    .expect("previous request");
+                if st == "inflight" {
+                    // the answer stays on the wire: on every connection open now and on those dialled for it
+                    net.close_gates();
+                    net.hold_new.store(true, Ordering::SeqCst);
+                }
+                let fut = send(preq);
+                let mut h = tokio::spawn(guarded(fut));
+                if st == "inflight" {
+                    settle(tcp).await;
+                    net.hold_new.store(false, Ordering::SeqCst);
+                    prev.push(json!({"state": st, "result": "inflight"}));
+                    pending.push((k, h));
+                } else {
+                    match tokio::time::timeout(bound, &mut h).await {
+                        Ok(Ok(o)) => prev.push({
+                            let mut j = outcome_json(Ok(o));
+                            j["state"] = json!(st);
+                            j
+                        }),
+                        Ok(Err(_join)) => prev.push(json!({"state": st, "result": "panic"})),
+                        Err(_) => {
+                            // cannot complete (multiplexed on a connection whose answers are held back): stays in flight
+                            prev.push(json!({"state": st, "result": "inflight"}));
+                            pending.push((k, h));
+                        }
+                    }
+                    settle(tcp).await;
+                    if st == "closed" {
+                        net.kill_all();
+                        settle(tcp).await;
+                    }
+                }
+                note(&steps, format!("{k}"));
+            }
+            let before = net.count();
+            // the vector's request, in the caller's task; while a previous request is in flight new connections are
+            // held too, then the wire is released connection by connection in the order they were dialled
+            if !pending.is_empty() {
+                net.hold_new.store(true, Ordering::SeqCst);
+            }
+            let releaser = {
+                let net = net.clone();
+                let held = !pending.is_empty();
+                tokio::spawn(async move {
+                    if !held {
+                        return;
+                    }
+                    settle(tcp).await;
+                    let mut i = 0;
+                    loop {
+                        if i >= net.count() {
+                            // everything dialled so far is released; later connections are not held
+                            net.hold_new.store(false, Ordering::SeqCst);
+                            settle(tcp).await;
+                            if i >= net.count() {
+                                break;
+                            }
+                        }
+                        net.open_gate(i);
+                        i += 1;
+                        settle(tcp).await;
+                    }
+                })
+            };
+            let fut = send(req);
+            drop(send);
+            let guard = if tcp { Duration::from_secs(20) } else { Duration::from_secs(30) };
+            let mut res = outcome_json(tokio::time::timeout(guard, guarded(fut)).await);
+            let after = net.count();
+            note(&steps, format!("{}", states.len()));
+            res["dialsFinal"] = json!(after - before);
+            // let everything finish: the wire is open, the requests still in flight complete
+            let _ = releaser.await;
+            net.open_all();
+            for (k, h) in pending {
+                let r = match tokio::time::timeout(bound, h).await {
+                    Ok(Ok(o)) => outcome_json(Ok(o))["result"].clone(),
+                    Ok(Err(_)) => json!("panic"),
+                    Err(_) => json!("hang"),
+                };
+                prev[k]["later"] = r;
+            }
+            settle(tcp).await;
+            res["prev"] = json!(prev);
+            for a in &acceptors {
+                a.abort();
+            }
+            net.kill_all();
+            peer.abort();
+            let _ = peer.await;
+            settle(tcp).await;
+            conc = Some(c);
+            res
+        })
+    }));
+    let teardown = std::panic::catch_unwind(std::panic::AssertUnwindSafe(move || drop(rt)));
+    note(&steps, "teardown".to_string());
+    if let Some(why) = skipped {
+        eprintln!("skip vector {id}/{spx}: {why}");
+        return None;
+    }
+    let steps = steps.lock().unwrap().clone();
+    let mut obs = match outcome {
+        Ok(r) => r,
+        Err(_) => json!({"result": "panic", "where": "runtime"}),
+    };
+    if teardown.is_err() && obs["result"] != "panic" {
+        obs["teardownPanic"] = json!(true);
+    }
+    for (_, p) in &steps {
+        if is_harness_loc(&p.file) {
+            eprintln!("harness panic at {}:{}: {} (vector {id}/{spx})", p.file, p.line, p.msg);
+            std::process::exit(3);
+        }
+    }
+    let caller = obs["result"] == "panic";
+    if let Some((step, p)) = steps.first() {
+        obs["panicMsg"] = json!(p.msg.chars().take(160).collect::<String>());
+        obs["panicLoc"] = json!(format!("{}:{}", short_loc(&p.file), p.line));
+        obs["panicFile"] = json!(short_loc(&p.file));
+        // the history at the first panic: the requests before the one during which it was raised
+        let upto = step.parse::<usize>().unwrap_or(states.len()).min(states.len());
+        let st: Vec<&str> = states.iter().take(upto).map(|x| x.as_str()).collect();
+        obs["panicHist"] = json!(hist_name(&st));
+        obs["panicStep"] = json!(step);
+        // whose task: the caller's task of the request during which it was raised (that request unwound), or another
+        let unwound = match step.parse::<usize>() {
+            Ok(k) if k < states.len() => obs["prev"][k]["result"] == "panic" || obs["prev"][k]["later"] == "panic",
+            Ok(_) => caller,
+            Err(_) => false,
+        };
+        obs["panicWhere"] = json!(if unwound { "caller" } else { "task" });
+    } else {
+        obs["panicFile"] = json!("");
+        obs["panicHist"] = json!("");
+    }
+    let prev_panicked = obs["prev"].as_array().map(|a| a.iter().any(|p| p["result"] == "panic" || p["later"] == "panic")).unwrap_or(false);
+    obs["panics"] = json!(steps.len());
+    obs["panicLocs"] = json!(steps.iter().map(|(st, p)| format!("[{st}] {}:{} {}", short_loc(&p.file), p.line, p.msg.chars().take(60).collect::<String>())).collect::<Vec<_>>());
+    obs["taskPanics"] = json!(if caller { steps.len().saturating_sub(1) } else { steps.len() });
+    obs["panicked"] = json!(!steps.is_empty() || caller || prev_panicked);
+    obs["stuck"] = json!(false);
+    if obs["errKind"].is_null() {
+        obs["errKind"] = json!("");
+    }
+    if obs["dialsFinal"].is_null() {
+        obs["dialsFinal"] = json!(0);
+    }
+    if obs["prev"].is_null() {
+        obs["prev"] = json!([]);
+    }
+    let conns = log.lock().unwrap().clone();
+    obs["conns"] = json!(conns.len());
+    obs["peerTls"] = json!(conns.iter().any(|c| c.hs_done));
+    obs["peerAlpnH2"] = json!(conns.iter().any(|c| c.alpn.as_deref() == Some("h2")));
+    obs["reqs"] = json!(conns.iter().flat_map(|c| c.reqs.iter().map(|r| r.chars().take(120).collect::<String>())).collect::<Vec<_>>());
+    obs["class"] = json!(match obs["result"].as_str().unwrap_or("") {
+        "panic" => "panic",
+        _ if obs["panicked"] == true => "task-panic",
+        "resp" => "resp",
+        "err" => "err",
+        _ => "hang",
+    });
+    let c = conc.unwrap_or(Concrete { method: String::new(), uri: String::new(), version: http::Version::HTTP_11, headers: Vec::new(), body: Vec::new() });
+    Some(record(id, spx, v, &c, obs))
+}
+
+fn record(id: usize, spx: usize, v: &Value, c: &Concrete, obs: Value) -> Value {
     let mut vv = v.as_object().cloned().unwrap_or_default();
     for k in ["exp", "expAsBuilt", "id", "spx"] {
         vv.remove(k);
     }
-    Some(json!({
+    // a vector of the request grammar alone is at the centre of every other dimension
+    for (d, c) in SC_DIMS {
+        vv.entry(d.to_string()).or_insert(json!(c));
+    }
+    json!({
         "e": "Vec", "id": id, "spx": spx, "build": if cfg!(debug_assertions) { "da" } else { "release" }, "v": Value::Object(vv),
         "sp": {"method": c.method, "uri": c.uri.chars().take(400).collect::<String>(), "version": format!("{:?}", c.version),
                "headers": c.headers.iter().map(|(k, v)| format!("{k}: {}", String::from_utf8_lossy(&v[..std::cmp::min(v.len(), 40)]))).collect::<Vec<_>>(),
@@ -360,38 +967,231 @@ fn run_vector(certs: &Certs, scfg: &Arc<rustls::ServerConfig>, id: usize, v: &Va
         "exp": v.get("exp").cloned().unwrap_or(json!({})),
         "expAsBuilt": v.get("expAsBuilt").cloned().unwrap_or(json!({})),
         "obs": obs,
-    }))
+    })
+}
+
+/// a record for a vector that was not run in this process: `stuck` (its probe never returned) or `notrun`
+/// (it belongs to a class whose probe is stuck)
+fn unrun_record(id: usize, spx: usize, v: &Value, class: &str, why: &str) -> Value {
+    let c = Concrete { method: String::new(), uri: String::new(), version: http::Version::HTTP_11, headers: Vec::new(), body: Vec::new() };
+    let obs = json!({"result": class, "class": class, "panicked": false, "stuck": class == "stuck", "why": why, "panicFile": "", "panicHist": "",
+                     "panics": 0, "panicLocs": [], "taskPanics": 0, "errKind": "", "dialsFinal": 0, "prev": [], "conns": 0,
+                     "peerTls": false, "peerAlpnH2": false, "reqs": []});
+    record(id, spx, v, &c, obs)
+}
+
+/// configuration dimensions a probe isolates
+const CFG_DIMS: [&str; 11] = ["pool", "idle", "maxidle", "cap", "rto", "redir", "ct", "het", "hec", "ka", "buf"];
+
+/// Some((dimension, class)) if the vector is the centre request, first request, with exactly one configuration
+/// class off the centre
+fn probe_class(v: &Value) -> Option<(String, String)> {
+    let req_ok = s(v, "ver") == "1.1" && s(v, "method") == "GET" && s(v, "uri") == "http" && s(v, "stack") == "client"
+        && s(v, "transport") == "plain" && sc(v, "hist") == "first" && matches!(s(v, "host"), "name" | "v4");
+    if !req_ok {
+        return None;
+    }
+    let off: Vec<&str> = CFG_DIMS.iter().copied().filter(|d| sc(v, d) != SC_DIMS.iter().find(|(k, _)| k == d).unwrap().1).collect();
+    if off.len() == 1 {
+        Some((off[0].to_string(), sc(v, off[0]).to_string()))
+    } else {
+        None
+    }
+}
+
+enum Probe {
+    Done(Value),
+    /// the child did not finish within the limit (killed)
+    Stuck,
+    /// the child failed for another reason (a tool error)
+    Failed(String),
+}
+
+/// run one vector in a child process under a wall-clock limit
+fn probe(args: &[String], v: &Value, id: usize, limit: Duration) -> Probe {
+    let dir = std::path::Path::new(&args[4]).parent().map(|p| p.to_path_buf()).unwrap_or_else(|| ".".into());
+    let tag = format!("probe-{}-{}-{id}", if cfg!(debug_assertions) { "da" } else { "release" }, std::process::id());
+    let vp = dir.join(format!("{tag}.json"));
+    let op = dir.join(format!("{tag}.ndjson"));
+    let mut one = v.clone();
+    one["spx"] = json!(0);
+    std::fs::write(&vp, serde_json::to_string(&vec![one]).unwrap()).expect("write probe vector");
+    let mut child = std::process::Command::new(std::env::current_exe().expect("current exe"))
+        .args(["one", vp.to_str().unwrap(), &args[3], op.to_str().unwrap(), &args[5], "1"])
+        .stdout(std::process::Stdio::null())
+        .stderr(std::process::Stdio::null())
+        .spawn()
+        .expect("spawn probe");
+    let t0 = std::time::Instant::now();
+    let res = loop {
+        match child.try_wait() {
+            Ok(Some(st)) if st.success() => {
+                break match std::fs::read_to_string(&op).ok().and_then(|t| t.lines().next().and_then(|l| serde_json::from_str::<Value>(l).ok())) {
+                    Some(r) => Probe::Done(r),
+                    None => Probe::Failed("no record".to_string()),
+                }
+            }
+            Ok(Some(st)) => break Probe::Failed(format!("exit {st}")),
+            Ok(None) if t0.elapsed() > limit => {
+                let _ = child.kill();
+                let _ = child.wait();
+                break Probe::Stuck;
+            }
+            Ok(None) => std::thread::sleep(Duration::from_millis(5)),
+            Err(e) => break Probe::Failed(e.to_string()),
+        }
+    };
+    let _ = std::fs::remove_file(&vp);
+    let _ = std::fs::remove_file(&op);
+    res
 }
 
 fn main() {
     let args: Vec<String> = std::env::args().collect();
-    if args.len() < 7 || args[1] != "run" {
-        eprintln!("usage: pipeline run <vectors.json> <certdir> <out.ndjson> <seed> <nspell>");
+    if args.len() < 7 || !(args[1] == "run" || args[1] == "one" || args[1] == "probe") {
+        eprintln!("usage: pipeline run|one|probe <vectors.json> <certdir> <out.ndjson> <seed> <nspell> [<shard> <nshards> [<probe.json>]]");
         std::process::exit(2);
     }
+    let mode = args[1].clone();
     let vectors: Vec<Value> = serde_json::from_str(&std::fs::read_to_string(&args[2]).expect("read vectors")).expect("vectors json");
     let seed: u64 = args[5].parse().expect("seed");
     let nspell: usize = args[6].parse().expect("nspell");
+    let shard: usize = args.get(7).map(|x| x.parse().expect("shard")).unwrap_or(0);
+    let nshards: usize = args.get(8).map(|x| x.parse().expect("nshards")).unwrap_or(1);
     let da = cfg!(debug_assertions);
     install_crypto();
     install_panic_hook();
     let certs = Certs { dir: args[3].clone() };
     let scfg = certs.server_config("match", &["h2", "http/1.1"]);
     let mut out = vh::trace::TraceOut::create(&args[4]);
-    let (mut n, mut skipped, mut mine) = (0usize, 0usize, 0usize);
-    for (i, v) in vectors.iter().enumerate() {
-        // a vector is executed by the build it names
-        if v.get("da").and_then(|x| x.as_bool()).unwrap_or(false) != da {
-            continue;
+    // watchdog: a vector that blocks this thread for minutes is a tool failure (named on stderr), not a silent hang
+    let progress = Arc::new(AtomicU64::new(0));
+    {
+        let progress = progress.clone();
+        std::thread::spawn(move || {
+            let mut last = (u64::MAX, std::time::Instant::now());
+            loop {
+                std::thread::sleep(Duration::from_secs(1));
+                let p = progress.load(Ordering::SeqCst);
+                if p != last.0 {
+                    last = (p, std::time::Instant::now());
+                } else if last.1.elapsed() > Duration::from_secs(150) {
+                    eprintln!("watchdog: vector id {} blocks the executor thread (no progress for 150 s)", p);
+                    std::process::exit(4);
+                }
+            }
+        });
+    }
+    let mine: Vec<(usize, &Value)> = vectors
+        .iter()
+        .enumerate()
+        .filter(|(_, v)| v.get("da").and_then(|x| x.as_bool()).unwrap_or(false) == da)
+        .map(|(i, v)| (v.get("id").and_then(|x| x.as_u64()).map(|x| x as usize).unwrap_or(i + 1), v))
+        .filter(|(id, _)| id % nshards == shard)
+        .collect();
+    // 1. probes: one configuration class off the centre, in a child process under a wall-clock limit. `probe` mode
+    //    runs them for the whole build and writes <out>.probe.json; `run` takes that file (args[9]) or probes itself
+    let all_mine: Vec<(usize, &Value)> = vectors
+        .iter()
+        .enumerate()
+        .filter(|(_, v)| v.get("da").and_then(|x| x.as_bool()).unwrap_or(false) == da)
+        .map(|(i, v)| (v.get("id").and_then(|x| x.as_u64()).map(|x| x as usize).unwrap_or(i + 1), v))
+        .collect();
+    let mut stuck: Vec<(String, String)> = Vec::new();
+    let mut probed: std::collections::HashMap<usize, Value> = std::collections::HashMap::new();
+    let mut probed_elsewhere: std::collections::HashSet<usize> = std::collections::HashSet::new();
+    let mut nprobes = 0usize;
+    if let Some(pf) = args.get(9) {
+        let j: Value = serde_json::from_str(&std::fs::read_to_string(pf).expect("read probe file")).expect("probe json");
+        for x in j["stuck"].as_array().cloned().unwrap_or_default() {
+            stuck.push((x[0].as_str().unwrap().to_string(), x[1].as_str().unwrap().to_string()));
         }
-        mine += 1;
-        let id = v.get("id").and_then(|x| x.as_u64()).map(|x| x as usize).unwrap_or(i + 1);
+        for x in j["probed"].as_array().cloned().unwrap_or_default() {
+            probed_elsewhere.insert(x.as_u64().unwrap() as usize);
+        }
+    } else if mode != "one" {
+        let mut seen = std::collections::HashSet::new();
+        for (id, v) in &all_mine {
+            if is_centre(v) {
+                continue;
+            }
+            let Some(cl) = probe_class(v) else { continue };
+            if !seen.insert((cl.clone(), sc(v, "net").to_string())) {
+                continue;
+            }
+            nprobes += 1;
+            progress.store(*id as u64, Ordering::SeqCst);
+            let limit = Duration::from_secs(10);
+            match probe(&args, v, *id, limit) {
+                Probe::Done(rec) => {
+                    probed.insert(*id, rec);
+                }
+                Probe::Failed(why) => {
+                    eprintln!("probe of vector {id} ({}={}) failed: {why}", cl.0, cl.1);
+                    std::process::exit(5);
+                }
+                Probe::Stuck => match probe(&args, v, *id, limit) {
+                    Probe::Done(rec) => {
+                        eprintln!("probe of vector {id} ({}={}) was slow once", cl.0, cl.1);
+                        probed.insert(*id, rec);
+                    }
+                    Probe::Failed(why) => {
+                        eprintln!("probe of vector {id} ({}={}) failed: {why}", cl.0, cl.1);
+                        std::process::exit(5);
+                    }
+                    Probe::Stuck => {
+                        eprintln!("probe of vector {id}: {}={} blocks the executor thread (no return within {limit:?}, twice)", cl.0, cl.1);
+                        probed.insert(*id, unrun_record(*id, 0, v, "stuck", &format!("{}={}", cl.0, cl.1)));
+                        stuck.push(cl);
+                    }
+                },
+            }
+        }
+    }
+    if mode == "probe" {
+        let mut ids: Vec<usize> = probed.keys().copied().collect();
+        ids.sort();
+        for id in &ids {
+            out.emit(&probed[id]);
+        }
+        out.finish();
+        let summary = json!({"probes": nprobes, "probed": ids, "stuck": stuck.iter().map(|(d, c)| json!([d, c])).collect::<Vec<_>>(),
+                             "records": ids.len(), "debug_assertions": da});
+        std::fs::write(format!("{}.probe.json", args[4]), summary.to_string()).expect("write probe file");
+        println!("{summary}");
+        return;
+    }
+    // 2. the vectors
+    let (mut n, mut skipped, mut notrun, mut elsewhere) = (0usize, 0usize, 0usize, 0usize);
+    for (id, v) in &mine {
+        let id = *id;
+        progress.store(id as u64, Ordering::SeqCst);
         let sps: Vec<usize> = match v.get("spx").and_then(|x| x.as_u64()) {
             Some(x) => vec![x as usize],
             None => (0..nspell).collect(),
         };
         for spx in sps {
-            match run_vector(&certs, &scfg, id, v, spx, seed) {
+            if spx == 0 {
+                if let Some(rec) = probed.remove(&id) {
+                    out.emit(&rec);
+                    n += 1;
+                    continue;
+                }
+                if probed_elsewhere.contains(&id) {
+                    // executed (and recorded) by the probe phase
+                    elsewhere += 1;
+                    continue;
+                }
+            }
+            if let Some((d, c)) = stuck.iter().find(|(d, c)| sc(v, d) == c.as_str()) {
+                // not executed: it would block this thread like the probe of its class
+                out.emit(&unrun_record(id, spx, v, "notrun", &format!("{d}={c}")));
+                n += 1;
+                notrun += 1;
+                continue;
+            }
+            let rec = if is_centre(v) { run_vector(&certs, &scfg, id, v, spx, seed) } else { run_scenario(&certs, &scfg, id, v, spx, seed) };
+            match rec {
                 Some(rec) => {
                     out.emit(&rec);
                     n += 1;
@@ -401,5 +1201,10 @@ fn main() {
         }
     }
     out.finish();
-    println!("{}", json!({"records": n, "skipped": skipped, "vectors": mine, "debug_assertions": da}));
+    println!(
+        "{}",
+        json!({"records": n, "skipped": skipped, "vectors": mine.len(), "debug_assertions": da, "probes": nprobes,
+               "stuck_classes": stuck.iter().map(|(d, c)| format!("{d}={c}")).collect::<Vec<_>>(), "not_executed": notrun,
+               "probed_elsewhere": elsewhere})
+    );
 }
